@@ -656,8 +656,76 @@ def corpus_names(sub="node"):
     return sorted(d for d in os.listdir(root) if os.path.exists(os.path.join(root, d, "model.onnx")))
 
 
+# synthetic corpus `ifinits`: constant-condition Ifs whose TAKEN branch owns initializers named from {w, w_1, w_2} while the
+# receiving graph (or an earlier inlined sibling branch) already owns some of those names - the renaming that moving branch
+# initializers to the enclosing graph needs (seeded C04g chose all new names before registering any: w -> w_1 collided with
+# the branch's own w_1 and optimize() raised).  Every combination is enumerated.
+_IFI_OUTER = [[], ["w"], ["w_1"], ["w", "w_1"]]
+_IFI_B1 = [["w"], ["w_1"], ["w", "w_1"], ["w", "w_2"], ["w_1", "w_2"], ["w", "w_1", "w_2"], ["w_1", "w"]]
+_IFI_B2 = [None, ["w"], ["w", "w_1"], ["w_1", "w_2"]]
+
+
+def ifinits_names():
+    out = []
+    for o in _IFI_OUTER:
+        for b1 in _IFI_B1:
+            for b2 in _IFI_B2:
+                for taken in ("then", "else"):
+                    out.append(f"outer={'+'.join(o) or '-'};b1={'+'.join(b1)};b2={'+'.join(b2) if b2 else '-'};{taken}")
+    return out
+
+
+def ifinits_case(name):
+    """-> (model, real_inputs, [input arrays], None)"""
+    parts = dict(p.split("=") for p in name.split(";")[:3])
+    taken = name.split(";")[3]
+    names = lambda s: [] if s == "-" else s.split("+")   # noqa: E731
+    oh, TP = onnx.helper, onnx.TensorProto
+    vi = lambda n: oh.make_tensor_value_info(n, TP.FLOAT, [4])   # noqa: E731
+    val = lambda level, k: nh.from_array(np.array([1, 2, 3, 4], np.float32) * (0.5 + level) + k, "")   # noqa: E731
+
+    def named(t, n):
+        t.name = n
+        return t
+    nodes = [oh.make_node("Constant", [], ["cond"], value=nh.from_array(np.array(taken == "then"), "cond_v"), name="cnd")]
+    inits = []
+    cur = "x"
+    for k, n in enumerate(names(parts["outer"])):
+        inits.append(named(val(0, k), n))
+        nodes.append(oh.make_node("Add", [cur, n], [f"o{k}"], name=f"oadd{k}"))
+        cur = f"o{k}"
+
+    def branch(level, src, own, out):
+        bn, bi = [], []
+        c = src
+        for k, n in enumerate(own):
+            bi.append(named(val(level, k), n))
+            bn.append(oh.make_node("Mul" if k % 2 == 0 else "Add", [c, n], [f"{out}_{k}"], name=f"{out}_n{k}"))
+            c = f"{out}_{k}"
+        bn.append(oh.make_node("Identity", [c], [out], name=f"{out}_id"))
+        return oh.make_graph(bn, out + "_g", [], [vi(out)], initializer=bi)
+
+    def other(src, out):
+        return oh.make_graph([oh.make_node("Neg", [src], [out], name=out + "_neg")], out + "_g", [], [vi(out)])
+    for level, key in ((1, "b1"), (2, "b2")):
+        own = names(parts[key])
+        if not own:
+            continue
+        tb, eb = branch(level, cur, own, f"t{level}"), other(cur, f"e{level}")
+        if taken == "else":
+            tb, eb = other(cur, f"t{level}"), branch(level, cur, own, f"e{level}")
+        nodes.append(oh.make_node("If", ["cond"], [f"r{level}"], name=f"if{level}", then_branch=tb, else_branch=eb))
+        cur = f"r{level}"
+    nodes.append(oh.make_node("Identity", [cur], ["z"], name="fin"))
+    g = oh.make_graph(nodes, "ifinits", [vi("x")], [vi("z")], initializer=inits)
+    m = oh.make_model(g, opset_imports=[oh.make_opsetid("", 18)], ir_version=10)
+    return m, [vi("x")], [np.array([1.0, -2.0, 0.5, 3.0], np.float32)], None
+
+
 def load_corpus_case(name, sub="node"):
     """-> (model, [input arrays or None], [output arrays or None]); None marks a non-tensor value."""
+    if sub == "ifinits":
+        return ifinits_case(name)
     d = os.path.join(corpus_root(), sub, name)
     model = onnx.load(os.path.join(d, "model.onnx"))
     ds = os.path.join(d, "test_data_set_0")
@@ -829,6 +897,8 @@ def plan_c03(tier, with_corpus=True):
         for sub in ("simple", "pytorch-operator", "pytorch-converted"):
             cit += [dict(fam="corpus", sub=sub, name=n, lift=l, api="optimize", opts={}, entry="proto")
                     for l in (("init",) if tier == "quick" else ("init", "asis")) for n in corpus_names(sub)]
+        cit += [dict(fam="corpus", sub="ifinits", name=n, lift="asis", api="optimize", opts={}, entry="proto")
+                for n in ifinits_names()]
         fam["corpus"] = dict(states=len(cit) + 1, transitions=len(cit), leaves=len(cit), pruned=0, capped=False,
                              bound=0, dimensions={"model": len(set(i["name"] for i in cit)), "lift": len(lifts)})
         items += cit
